@@ -293,11 +293,21 @@ type pubMonitor struct {
 	m  map[uint64]bool
 }
 
+// nodeWritable: does the node have write authority right now? With a lease
+// service in the run the answer does not come from LiteFS's own flag: a node
+// that has closed (given back) every lease it was handed has none, whatever
+// Store.IsPrimary() still says.
 func nodeWritable(n *Node) bool {
 	if n.Store == nil {
 		return false
 	}
 	if n.Store.IsPrimary() {
+		if sl, ok := n.Cfg.Leaser.(*SimLeaser); ok {
+			if !sl.svc.HoldsUnclosedLease(n.ID) {
+				n.r.Count("c07.monitor.primary-flag-without-lease")
+				return false
+			}
+		}
 		return true
 	}
 	for _, db := range n.Store.DBs() {
@@ -351,6 +361,12 @@ func c07Cluster(r *Run) {
 	t := r.Tape
 	cs := newClusterSim(r, 2+t.Next(2), "c07")
 	cs.wantTx = t.Range(4, 10)
+	// on the mutex-instrumented binary half of the runs are also interleaved at
+	// (every, every third or every tenth of) LiteFS's mutex acquisitions
+	if MutexYieldBuilt && t.Chance(1, 2) {
+		r.MutexSeam, r.MutexEvery = true, []int{1, 3, 10}[t.Next(3)]
+	}
+	r.Cfg["mutex_seam"], r.Cfg["mutex_every"] = r.MutexSeam, r.MutexEvery
 	for _, n := range cs.cl.Nodes {
 		n.PreOpen = func(n *Node) { installPubMonitor(r, n, "c07") }
 	}
